@@ -290,6 +290,26 @@ def World.call (w : World α) (kind : Kind) (tb : Tables α) (inter : Nat → Na
     let (w1, id) := w.alloc (w.read xid)
     w1.fForm kind tb inter id T
 
+/-- The caller overwrites one of its own arrays in place (`x[:] = …`, a solver reusing its buffer). -/
+def World.write (w : World α) (id : Nat) (vals : Array α) : World α :=
+  { w with heap := w.heap.setIfInBounds id vals }
+
+/-- One step of a caller's history: an evaluation, or the caller rewriting one of its arrays. -/
+inductive Step (α : Type) where
+  | call (arg : Arg α) (T : α)
+  | set (id : Nat) (vals : Array α)
+
+/-- A history of evaluations of one model object interleaved with the caller's own writes; returns the final
+store and the contents of the results. -/
+def World.runSteps (w : World α) (kind : Kind) (tb : Tables α) (inter : Nat → Nat → Nat → α) :
+    List (Step α) → World α × List (Array α)
+  | [] => (w, [])
+  | .call arg T :: rest =>
+    let r := w.call kind tb inter arg T
+    let out := r.1.runSteps kind tb inter rest
+    (out.1, r.1.read r.2 :: out.2)
+  | .set id vals :: rest => (w.write id vals).runSteps kind tb inter rest
+
 /-! ### The `ideal` decorator and the ideal models -/
 
 /-- `_ideal_coefficient(z=None, T=None, P=None)`: the `f` of every `@ideal` class. -/
